@@ -434,7 +434,7 @@ pub fn run(run: &Run) {
     run.set_rule("history", "history of validate/batch/sync-reload/cleanup over 1..4 peers; non-trivial = ≥1 accepted and ≥2 rejected submissions of ≥2 different rejection classes; distinct by hash of the operation list");
     run.set_rule("concurrent", "T OS threads lined up by a spinning start gate submit the same (peer, seq) - number 1 to a fresh peer, every later number to a known peer - through validate_sequence or batch_update, many rounds; non-trivial = T≥2 and ≥2 rounds; distinct by (T, rounds, path, hashes)");
     let (len, n) = match run.tier {
-        Tier::Quick => (60, 1200),
+        Tier::Quick => (60, 6000),
         Tier::Thorough => (400, 30000),
     };
     run.prop("history", n, shards_for(run.tier), case(len), run_case);
